@@ -137,8 +137,9 @@ def narrow_deep(rep, quick, rng, table="default"):
     """Few symbols, long strings: interplay of several rings and branches on the same atoms needs 8-10 symbols
     (a ring from inside a branch back to the branch root, then the root's own ring; rings on rings; budgets that
     run out inside an index).  Every string over a 4-symbol alphabet up to 9 symbols, exhaustively."""
-    # quick: the first alphabet, one with fragments and multiple bonds, one more chosen by VERIF_SEED
-    alphas = [NARROW[0], NARROW[8], NARROW[1 + seed() % (len(NARROW) - 1)]] if quick else NARROW
+    # quick: the first alphabet, one with fragments and multiple bonds, one with two-symbol indices and dots (indices cut
+    # off by the end of a fragment), one more chosen by VERIF_SEED
+    alphas = [NARROW[0], NARROW[8], NARROW[3], NARROW[1 + seed() % (len(NARROW) - 1)]] if quick else NARROW
     for i, alpha in enumerate(alphas):
         gen_replay(rep, "narrow%d_%s" % (i, tabname(table)), alpha, table, 9 if quick else 10, fastjit=quick, deep=True)
     if not quick:
